@@ -1,5 +1,5 @@
 (* Main.v — request dispatcher of the extracted model (one request per line). *)
-From ArchSim Require Import Model.Base Model.Mem Model.Cache Model.Fmt Model.RV Model.Single Model.RVSplit Model.Pipe Model.Toy Model.Sx.
+From ArchSim Require Import Model.Base Model.Mem Model.Cache Model.Fmt Model.RV Model.Single Model.RVSplit Model.Pipe Model.Toy Model.Asm Model.Sx.
 Open Scope Z_scope.
 
 (* op 1: single-cycle trace.  (1 state nsteps) -> observations after every step, then a
@@ -111,6 +111,23 @@ Definition dispatch (req : sx) : sx :=
     let c := if dz (dnth req 1) =? 0 then rv_memcfg else toy_memcfg (dz (dnth req 2)) in
     let '(rs, m) := flat_trace c (dl (dnth req 4)) (dpairs (dnth req 3)) [] in
     Lx [Lx rs; sx_zmap_sorted m; sx_zs (mkeys m)]
+  else if op =? 60 then
+    (* assemble into a fresh state with the given cache configurations *)
+    let s0 := init_st [] (dmemsys (dnth req 1) []) (dicache (dnth req 2)) in
+    let '(s1, e, img) := rv_load s0 (map drline (dl (dnth req 3))) in
+    Lx [sx_opt sx_perr e; sx_opt sx_image img; sx_zmap_sorted (ms_lower (ms s1))]
+  else if op =? 62 then
+    let i := dinstr (dnth req 1) in
+    let a := dz (dnth req 2) in
+    Lx [sx_str (instr_repr i);
+        match repr_tokens i with
+        | BIns t => match instantiate_one t [] a 1 with
+                    | POk j => Lx [Zx 0; sx_instr j]
+                    | PErr e => Lx [Zx 1; sx_perr e]
+                    end
+        | BStr k => Lx [Zx 0; sx_instr (if k =? 0 then IEcall else IEbreak)]
+        | BOther => Lx [Zx 2]
+        end]
   else if op =? 50 then
     match dmemsys (dnth req 1) (dpairs (dnth req 2)) with
     | MCache d => Lx (dcache_trace (dl (dnth req 3)) d [])
